@@ -46,6 +46,14 @@ class Instruction(_mixins.DictMixin, _mixins.RegisterMixin, _mixins.CodeMixin):
 
         self._unresolved_params = self._get_unresolved_params(self._params)
 
+        # NOTE: The objects originally specified by the user (e.g., the expression
+        # strings) are kept, so that they can be restored after execution.
+        self._original_unresolved_params = {
+            name: param
+            for name, param in self._params.items()
+            if name in self._unresolved_params
+        }
+
     @staticmethod
     def _get_unresolved_params(params: dict) -> dict:
         callable_params = {
@@ -95,7 +103,7 @@ class Instruction(_mixins.DictMixin, _mixins.RegisterMixin, _mixins.CodeMixin):
         self._params.update(_resolved_params)
 
     def _unresolve_params(self):
-        self._params.update(self._unresolved_params)
+        self._params.update(self._original_unresolved_params)
 
     @property
     def modes(self) -> Tuple[int, ...]:
